@@ -220,7 +220,14 @@ def sim : R String := do
   | none => failure
   | some ops =>
     let (s', outs) := s.run ops
-    pure (join (["ok"] ++ outs.flatMap outSim ++ ["cursor", toString s'.cursor, toString (min s.target.length (bufCount ops))]))
+    -- the counting specification on the same calls (theorem `sim_refines_spec`: the answers above are these, read through k ↦ x_k)
+    let (a', souts) := SimSpec.run s.target.length { served := 0, last := none } ops
+    let specTok : SimOut Nat → String
+      | .flag b => if b then "T" else "F"
+      | .data none => "g-"
+      | .data (some i) => s!"g{i}"
+    pure (join (["ok"] ++ outs.flatMap outSim ++ ["cursor", toString s'.cursor, toString (min s.target.length (bufCount ops))]
+      ++ ["spec", toString a'.served] ++ souts.map specTok))
 
 def sensor : R String := do
   let ⟨n, s⟩ ← readTraj
@@ -235,26 +242,26 @@ def sensor : R String := do
   if h : idx.length = m then
     let H0 : Mat Rat idx.length n := linearModelH n idx
     let H : Mat Rat m n := h ▸ H0
-    let mut st : Sensor Rat n m := { sim := s, meas := none, rng := ⟨streamOf ds.toArray, 0⟩ }
-    let mut out : List String := ["ok"]
-    for op in ops do
-      match op with
-      | "f" =>
-        let (st', ok) := sensorFreeze H SR st
-        st := st'
-        out := out ++ [if ok then "T" else "F"]
-      | "m" =>
-        let (ok, y) := sensorMeasure st
-        out := out ++ (match y with
-          | none => [if ok then "m" else "mF", "0"]
-          | some v => [if ok then "m" else "mF", toString m] ++ outVec ratStr v)
-      | "r" => st := { st with sim := (st.sim.step .reset).1 }; out := out ++ ["T"]
-      | "b" =>
-        let (s', o) := st.sim.step .buffer
-        st := { st with sim := s' }
-        out := out ++ outSim o
-      | _ => out := out ++ ["bad"]
-    pure (join (out ++ ["pos", toString st.rng.pos]))
+    let st0 : Sensor Rat n m := { sim := s, meas := none, rng := ⟨streamOf ds.toArray, 0⟩ }
+    let opOf : String → Option SensorOp
+      | "f" => some .freeze | "m" => some .measure | "r" => some .reset | "b" => some .buffer | _ => none
+    match ops.mapM opOf with
+    | none => pure "bad-ops"
+    | some sops =>
+      -- the model's state machine (`Sensor.run`) and the counting specification on the same calls
+      -- (theorem `sensor_refines_spec`: the answers are the specification's, read through (k, d) ↦ H x_k + S_R z_d)
+      let (st, outs) := Sensor.run H SR st0 sops
+      let (a, souts) := SensorSpec.run s.target.length { served := 0, draws := 0, meas := none } sops
+      let tok : SensorOut (Vec Rat m) → List String
+        | .flag b => [if b then "T" else "F"]
+        | .meas ok none => [if ok then "m" else "mF", "0"]
+        | .meas ok (some v) => [if ok then "m" else "mF", toString m] ++ outVec ratStr v
+      let stok : SensorOut (Nat × Nat) → String
+        | .flag b => if b then "T" else "F"
+        | .meas _ none => "m-"
+        | .meas _ (some kd) => s!"m{kd.1}:{kd.2}"
+      pure (join (["ok"] ++ outs.flatMap tok ++ ["pos", toString st.rng.pos]
+        ++ ["spec", toString a.served, toString a.draws] ++ souts.map stok))
   else failure
 
 def sensor_descr : R String := do
